@@ -57,6 +57,10 @@ func cleanupBuilt() {
 	for _, b := range builtBins {
 		os.Remove(b)
 	}
+	// build directories of scratch repositories (mutant runs) are single-use
+	if repo := env("VERIF_REPO", "/repo"); repo != "/repo" {
+		os.RemoveAll(buildDir(repo))
+	}
 	matches, _ := filepath.Glob(filepath.Join(verifDir, ".build", "*", fmt.Sprintf("overlay-%d*", os.Getpid())))
 	for _, m := range matches {
 		os.RemoveAll(m)
